@@ -19,18 +19,19 @@ import (
 
 // Spec describes a container to build.
 type Spec struct {
-	Kind     string `json:"kind"`                // map | mapof | cache | cacheof
-	Key      string `json:"keytype,omitempty"`   // for *of kinds: int | string | struct
-	Hasher   string `json:"hasher,omitempty"`    // mapof only: "" default | const | samebucket | sameh2 | identity | lowbits
-	Presize  int    `json:"presize,omitempty"`   // map/mapof presize hint; cache MinCapacity
-	GrowOnly bool   `json:"grow_only,omitempty"` // map/mapof: xsync.WithGrowOnly() (internal option; never shrinks except on Clear)
-	Ctor     string `json:"ctor,omitempty"`      // cache: "new" (options) | "default" (NewDefault)
-	DefExp   int64  `json:"defexp,omitempty"`    // cache default expiration handed to the constructor
-	HasDef   bool   `json:"hasdef,omitempty"`    // pass DefExp (otherwise library default)
-	CB       bool   `json:"cb,omitempty"`        // install evicted callback at construction
-	Reenter  uint8  `json:"reenter,omitempty"`   // callback re-entry: 0 none, 1 Get(k) (must not return the evicted value), 2 Count(), 3 both
-	Cleanup  int64  `json:"cleanup,omitempty"`   // cleanup interval handed to constructor (virtual clock: ticker never fires)
-	Native   bool   `json:"native,omitempty"`    // natively parallel use: no callback attribution (it is per virtual thread)
+	Kind     string     `json:"kind"`                // map | mapof | cache | cacheof
+	Key      string     `json:"keytype,omitempty"`   // for *of kinds: int | string | struct
+	Hasher   string     `json:"hasher,omitempty"`    // mapof only: "" default | const | samebucket | sameh2 | identity | lowbits
+	Presize  int        `json:"presize,omitempty"`   // map/mapof presize hint; cache MinCapacity
+	GrowOnly bool       `json:"grow_only,omitempty"` // map/mapof: xsync.WithGrowOnly() (internal option; never shrinks except on Clear)
+	Ctor     string     `json:"ctor,omitempty"`      // cache: "new" (options) | "default" (NewDefault)
+	DefExp   int64      `json:"defexp,omitempty"`    // cache default expiration handed to the constructor
+	HasDef   bool       `json:"hasdef,omitempty"`    // pass DefExp (otherwise library default)
+	CB       bool       `json:"cb,omitempty"`        // install evicted callback at construction
+	Reenter  uint8      `json:"reenter,omitempty"`   // callback re-entry: 0 none, 1 Get(k) (must not return the evicted value), 2 Count(), 3 both
+	ReOps    []model.Op `json:"re_ops,omitempty"`    // callback re-entry with arbitrary calls: the i-th callback invocation performs ReOps[i mod n] (nesting capped at 2)
+	Cleanup  int64      `json:"cleanup,omitempty"`   // cleanup interval handed to constructor (virtual clock: ticker never fires)
+	Native   bool       `json:"native,omitempty"`    // natively parallel use: no callback attribution (it is per virtual thread)
 	// Alias maps small key ids to other ids for string-keyed containers (id -> "k<alias>"): lets a
 	// generator make hot keys out of strings found by a search (top-hash collisions). Recomputed per process.
 	Alias map[int]int `json:"-"`
@@ -108,6 +109,9 @@ const maxThreads = 8
 type sinkSet struct {
 	sinks [maxThreads + 1]*model.Res
 	stray []model.KV
+	depth [maxThreads + 1]int // nesting of re-entrant calls made from callbacks, per thread
+	reN   int
+	ReLog []string // re-entrant calls made (for reports)
 }
 
 func tid() int {
@@ -496,6 +500,7 @@ type cacheAd struct {
 	cb2  cache.EvictedCallback
 }
 
+func (a *cacheAd) ReLog() []string            { return a.ss.ReLog }
 func (a *cacheAd) Spec() Spec                 { return a.spec }
 func (a *cacheAd) Release()                   { a.c = nil }
 func (a *cacheAd) Table() TableStats          { return TableStats{} }
@@ -518,6 +523,18 @@ func (a *cacheAd) mkCallback(second bool) cache.EvictedCallback {
 			}
 			if a.spec.Reenter >= 2 && a.c != nil {
 				_ = a.c.Count()
+			}
+			if n := len(a.spec.ReOps); n > 0 && a.c != nil {
+				if t := tid(); ss.depth[t] < 2 {
+					ss.depth[t]++
+					op := a.spec.ReOps[ss.reN%n]
+					ss.reN++
+					if len(ss.ReLog) < 40 {
+						ss.ReLog = append(ss.ReLog, fmt.Sprintf("in callback(k%d,%d): %s", ki, vi, op.String()))
+					}
+					_ = a.Do(&op)
+					ss.depth[t]--
+				}
 			}
 		} else {
 			ss.stray = append(ss.stray, model.KV{K: ki, V: vi})
@@ -685,6 +702,7 @@ type cacheOfAd[K comparable] struct {
 	cb2  cache.EvictedCallbackOf[K, int]
 }
 
+func (a *cacheOfAd[K]) ReLog() []string            { return a.ss.ReLog }
 func (a *cacheOfAd[K]) Spec() Spec                 { return a.spec }
 func (a *cacheOfAd[K]) Release()                   { a.c = nil }
 func (a *cacheOfAd[K]) Table() TableStats          { return TableStats{} }
@@ -706,6 +724,18 @@ func (a *cacheOfAd[K]) mkCallback(second bool) cache.EvictedCallbackOf[K, int] {
 			}
 			if a.spec.Reenter >= 2 && a.c != nil {
 				_ = a.c.Count()
+			}
+			if n := len(a.spec.ReOps); n > 0 && a.c != nil {
+				if t := tid(); ss.depth[t] < 2 {
+					ss.depth[t]++
+					op := a.spec.ReOps[ss.reN%n]
+					ss.reN++
+					if len(ss.ReLog) < 40 {
+						ss.ReLog = append(ss.ReLog, fmt.Sprintf("in callback(k%d,%d): %s", ki, v, op.String()))
+					}
+					_ = a.Do(&op)
+					ss.depth[t]--
+				}
 			}
 		} else {
 			ss.stray = append(ss.stray, model.KV{K: ki, V: v})
